@@ -378,7 +378,7 @@ def valid_case(case):
         try:
             prog.build_expr(case["expr"], prog.Env("generic", SRC))
             return True
-        except Exception:
+        except (Exception, HarnessError):
             return False
     if case.get("mode") == "table_pair":
         vs = {repr(s) for s, _ in table_variants()}
